@@ -492,6 +492,17 @@ static void b_compare(struct bst *s, const char *what)
 			b_fail(s, "lookup-miss-leaves-value", "%s: failed get_ex did not clear the result", what);
 			return;
 		}
+		/* the other lookup entry points answer the same: plain get, and get_ex used as a membership test */
+		if (json_object_object_get(s->obj, b_keystr(kk)) != v)
+		{
+			b_fail(s, "lookup-entry-points-differ", "%s: json_object_object_get(key#%d) and get_ex return different nodes", what, kk);
+			return;
+		}
+		if (!!json_object_object_get_ex(s->obj, b_keystr(kk), NULL) != !!found)
+		{
+			b_fail(s, "lookup-entry-points-differ", "%s: get_ex(key#%d, NULL) says %s, get_ex with a result pointer says %s", what, kk, found ? "absent" : "present", found ? "present" : "absent");
+			return;
+		}
 	}
 	/* five iteration forms */
 	n = 0;
